@@ -1,6 +1,6 @@
 (** C03 - Each trial sequence is exactly one model of the compiled formula.
 
-    [C03_unique_extension]: in the fragment F1 two models of the complete
+    [C03_unique_extension]: in the fragment F1 (CodeSem.in_f1, described in Properties/C01.v) two models of the complete
     formula that agree on the trial variables 1..variables_per_sample agree on
     every variable: every auxiliary variable (Cross state variables, Tseitin
     variables, adder / pop-count / comparator variables) is fixed by the levels
